@@ -26,6 +26,14 @@ def two_flavour(harness, quick_asan, quick_opt, th_asan, th_opt, **kw):
     return stages
 
 
+def memcheck_stage(harness, quick, thorough, **kw):
+    """valgrind memcheck over the non-sanitized build: uninitialised-value use (invisible to ASan/UBSan) and invalid accesses"""
+    def st(tier):
+        return dict(name='memcheck', harness=harness, flavour='opt', cases=thorough if tier == 'thorough' else quick, memcheck=True,
+                    chunks_per_job=1 if tier != 'thorough' else 2, offset=7000, **kw)
+    return st
+
+
 COMMON_ASSUME = [
     'gate builds use -DNDEBUG (release configuration); sanitizers (ASan+UBSan) replace the assertions',
     'reference truth comes from planted certificates or an independent exact simplex whose certificate is re-checked exactly',
